@@ -59,7 +59,7 @@ class C10(Prop):
             'and >= 1 unregistered trainable module and one of {skip pattern hit, frozen module, non-float32 parameters, eval pass, residual block}.')
     assumptions = ['the set of registered layers is computed by the harness with the eligibility rule of C16 (leaf Linear/Conv2d, all parameters trainable, no pattern hit)',
                    'bit-identity with the twin relies on deterministic CPU kernels (torch.use_deterministic_algorithms is not required for these ops)']
-    examples = {'quick': 250, 'thorough': 1200}
+    examples = {'quick': 400, 'thorough': 1200}
     shards = {'quick': 4, 'thorough': 16}
     required_labels = {'quick': ['nontrivial=True', 'param_dtype=bfloat16', 'param_dtype=float64', 'residual=True', 'frozen=True', 'skipped=True'],
                        'thorough': ['nontrivial=True', 'param_dtype=bfloat16', 'param_dtype=float64', 'residual=True', 'frozen=True', 'skipped=True']}
